@@ -205,7 +205,9 @@ impl source::Fetch for Pinned {
         // https://github.com/FuelLabs/sway/issues/7075
         {
             let _guard = lock.write()?;
-            if !repo_path.exists() {
+            // The index file is the last thing `fetch` writes. A checkout directory without it was
+            // left behind by an interrupted fetch and must not be handed to the compiler.
+            if !repo_path.join(".forc_index").exists() {
                 println_action_green(
                     "Fetching",
                     &format!("{} {}", ansiterm::Style::new().bold().paint(ctx.name), self),
